@@ -21,9 +21,13 @@ VARIABLES r, s, d, last
 vars == <<r, s, d, last>>
 View == <<r, s, d>>
 
-Own   == IF KT = "ed" THEN E1 ELSE K1
-Other == IF KT = "ed" THEN E2 ELSE K2
-SignerOf(n) == IF n = "own" THEN Own ELSE Other
+\* KT: "k256" | "ed" | "comb_secp" (CombinedKey, record of a secp256k1 key) | "comb_ed" (CombinedKey, ed25519 key)
+KTBase == IF KT \in {"comb_secp", "comb_ed"} THEN "comb" ELSE KT
+Own   == IF KT \in {"ed", "comb_ed"} THEN E1 ELSE K1
+Other == IF KT \in {"ed", "comb_ed"} THEN E2 ELSE K2
+\* a key of the other scheme (only meaningful for CombinedKey)
+Cross == IF KT \in {"ed", "comb_ed"} THEN K3 ELSE E2
+SignerOf(n) == IF n = "own" THEN Own ELSE IF n = "cross" THEN Cross ELSE Other
 
 X(str) == str   \* readability only
 
@@ -151,7 +155,22 @@ CallsPk == <<
   C("remove_insert", [remove |-> <<>>, insert |-> <<<<PkKeyOf(Own.scheme), Junk33>>>>], "own", 0)
 >>
 
-Calls == CallsCore \o CallsPk
+\* CombinedKey: updates signed with / public-key changes to a key of the OTHER scheme
+CallsCross == <<
+  C("set_seq", [seq |-> <<7>>], "cross", 0),
+  C("insert", [key |-> K_x, val |-> Bv(<<3>>)], "cross", 0),
+  C("remove_key", [key |-> K_x], "cross", 0),
+  C("remove_key", [key |-> PkKeyOf(Own.scheme)], "cross", 0),
+  C("set_udp_socket", [ip |-> <<9,9,9,9>>, port |-> 9], "cross", 0),
+  C("remove_insert", [remove |-> <<K_udp>>, insert |-> <<<<K_tcp, <<81>>>>>>], "cross", 0),
+  C("set_public_key", [pk_of |-> "cross"], "own", 0),
+  C("set_public_key", [pk_of |-> "cross"], "cross", 0),
+  C("set_public_key", [pk_of |-> "own"], "cross", 0),
+  C("insert", [key |-> PkKeyOf(Cross.scheme), val |-> Bv(Cross.pk)], "own", 0),
+  C("remove_key", [key |-> PkKeyOf(Cross.scheme)], "own", 0)
+>>
+
+Calls == CallsCore \o CallsPk \o (IF KTBase = "comb" THEN CallsCross ELSE <<>>)
 
 (***************************************************************************)
 (* named deviations: what the implementation did before the fix: commits   *)
@@ -162,7 +181,7 @@ InsertFamily == {"insert", "insert_raw_rlp", "set_ip", "set_udp4", "set_udp6", "
 \* the model's call record for Enr!Apply
 Full(c0) == [m |-> c0.m, args |-> c0.args, spk |-> SignerOf(c0.signer),
              argpk |-> IF c0.m = "set_public_key" THEN SignerOf(c0.args.pk_of) ELSE <<>>,
-             fault |-> c0.fault, siglen |-> 64, kt |-> KT]
+             fault |-> c0.fault, siglen |-> 64, kt |-> KTBase]
 
 \* RawUnchecked: custom keys accept any bytes; RemoveInsertUnchecked: only id and ports are checked in remove_insert
 DevTyped(c, A) ==
@@ -196,7 +215,8 @@ Step(i) ==
   LET c == Full(Calls[i])
       A == ApplyDev(r, c)
       mayFail == A.hard \cup A.soft
-      mayOk == A.hard = {}
+      \* a shadowed candidate is refused (the soft SigningError) -- unless the deviation of the unfixed code is selected
+      mayOk == A.hard = {} /\ (A.shadow => Dev = "NoShadowCheck")
   IN
   /\ d < MaxDepth
   /\ d' = d + 1
@@ -224,7 +244,7 @@ Spec == Init /\ [][Next]_vars
 (***************************************************************************)
 \* C05: every reachable record is valid and is accepted again by the decoder
 InvValid ==
-  LET D == Decode(KT, EncodeAbs(r), FactsOf(r)) IN
+  LET D == Decode(KTBase, EncodeAbs(r), FactsOf(r)) IN
   /\ AbsValid(r)
   /\ StrEntry(r.pairs, K_id) = <<V_v4>>
   /\ D.verdict = "accept"
